@@ -7,7 +7,7 @@
 From Coq Require Import List Arith Bool NArith.
 From FFSM2 Require Import Model.TaskList Model.BitArray Model.BitStream Model.Plan Model.Ancestors Model.Machine
   Proofs.BitArrayProofs Proofs.TaskListProofs Proofs.TaskListRun Proofs.PlanProofs Proofs.MachineFrame Proofs.MachinePlan Proofs.MachineLife Proofs.GuardProofs Proofs.CycleProofs Proofs.PlanStep
-  Proofs.SerialProofs Proofs.LogProofs Proofs.MachineTop Model.Multi Generated.InitFacts Proofs.ConstructProofs Proofs.LifeMonitor Proofs.ActivationRounds Proofs.IndexSafety Proofs.FeatureProofs Model.Script Proofs.Contract Proofs.Histories Proofs.StatusBits.
+  Proofs.SerialProofs Proofs.LogProofs Proofs.MachineTop Model.Multi Generated.InitFacts Proofs.ConstructProofs Proofs.LifeMonitor Proofs.ActivationRounds Proofs.IndexSafety Proofs.FeatureProofs Model.Script Proofs.Contract Proofs.Histories Proofs.StatusBits Proofs.Worlds Model.Cxx Generated.LeafCode Proofs.LeafTactics Proofs.LeafConsts Proofs.LeafCodeTaskList.
 Import ListNotations.
 
 Theorem C18_tasklist_emplace :
@@ -179,7 +179,7 @@ Theorem C18_report_bits_well_formed_in_every_reachable_state :
          wf_oracle P cfg orc ->
          forall (lg : bool) (ops : list (api_op P)),
          ops_ok P cfg orc (construct P cfg orc lg) ops ->
-         let d := plan P (co P (run P cfg orc lg ops)) in
+         let d := plan P (co P (Machine.run P cfg orc lg ops)) in
          PIc P cfg d /\ wf (N.of_nat (c_n cfg)) (pd_succ d) /\ wf (N.of_nat (c_n cfg)) (pd_fail d).
 Proof. exact (reachable_status_bits). Qed.
 Print Assumptions C18_report_bits_well_formed_in_every_reachable_state.
@@ -192,7 +192,7 @@ Theorem C18_report_bit_indices_in_range :
          forall (lg : bool) (ops : list (api_op P)) (sid : nat),
          ops_ok P cfg orc (construct P cfg orc lg) ops ->
          sid < c_n cfg ->
-         let d := plan P (co P (run P cfg orc lg ops)) in
+         let d := plan P (co P (Machine.run P cfg orc lg ops)) in
          N.to_nat (N.of_nat sid / 8) < length (pd_succ d) /\ N.to_nat (N.of_nat sid / 8) < length (pd_fail d).
 Proof. exact (reachable_status_bits_in_range). Qed.
 Print Assumptions C18_report_bit_indices_in_range.
